@@ -34,7 +34,7 @@ DONE.update({
  "C18": ("enum", "exploration", "bounded-exhaustive enumeration of SOCKS4/4a/5 requests, replies and UDP headers (all truncations, two delivery modes) against an independent RFC 1928 / SOCKS4a reference",
          "exhaustive products over versions, commands, address types, every domain length 0..255, ports, truncation points and trailers for the readers; all reply codes x address corners for the writers; UDP relay round trip through a reference client parser",
          "address/payload bytes outside the listed fillings are not enumerated; lenient where the RFC leaves behaviour open (listed in evidence assumptions)"),
- "C20": ("enum", "model_checking", "exhaustive enumeration of operation sequences up to depth L from several start states against a Vec<u8> model, every accessor compared after every operation",
+ "C20": ("enum", "exploration", "exhaustive enumeration of operation sequences up to depth L from several start states against a Vec<u8> model, every accessor compared after every operation",
          "all operation histories over the LongChain alphabet (arguments at, inside and one past every boundary) up to depth L from the empty chain and three pre-built chains; CowBytes: all strings up to length 4/5 over a 3-letter alphabet through every accessor, comparison and hash in both variants",
          "bounded depth; nothing sampled (the 'random longer ones' of the quantifier are not covered)"),
 })
